@@ -905,11 +905,17 @@ func (c *control) getEFGarg(ff *floatFormatter) {
 		if ff.neg = num < 0.0; ff.neg {
 			num = -num
 		}
-		ff.exp = int(math.Floor(math.Log10(num)))
+		if 0.0 < num { // the exponent of zero is zero
+			ff.exp = int(math.Floor(math.Log10(num)))
+		}
 		ff.digits = strconv.AppendFloat(nil, num, 'e', -1, 64)
 		ff.digits = ff.digits[:bytes.IndexByte(ff.digits, 'e')]
-		copy(ff.digits[1:], ff.digits[2:])
-		ff.digits = ff.digits[:len(ff.digits)-1]
+		// Remove the decimal point. There is none after a single digit as
+		// in 1e+00.
+		if 2 < len(ff.digits) {
+			copy(ff.digits[1:], ff.digits[2:])
+			ff.digits = ff.digits[:len(ff.digits)-1]
+		}
 		ff.exp -= len(ff.digits) - 1
 	default:
 		p := *slip.DefaultPrinter()
